@@ -136,6 +136,7 @@ partial def loop (hIn hOut : IO.FS.Stream) : IO Unit := do
   if line.isEmpty then return ()
   let words := (line.trimAscii.toString.splitOn " ").filter (· ≠ "")
   hOut.putStrLn (runOp words)
+  hOut.flush
   loop hIn hOut
 
 def main : IO Unit := do
